@@ -3,6 +3,7 @@ pub mod records;
 
 use std::{collections::HashMap, io};
 
+use noodles_core::Position;
 use noodles_fasta as fasta;
 use noodles_sam as sam;
 
@@ -36,7 +37,8 @@ pub(super) fn build_slice(
     compression_header: &CompressionHeader,
     records: &mut [Record],
 ) -> io::Result<Slice> {
-    let reference_sequence_context = get_reference_sequence_context(records);
+    let reference_sequence_context =
+        clamp_reference_sequence_context(header, get_reference_sequence_context(records));
 
     set_mates(records);
 
@@ -99,6 +101,35 @@ fn get_reference_sequence_context(records: &[Record]) -> ReferenceSequenceContex
     }
 
     reference_sequence_context
+}
+
+// Clamps the alignment span to the end of the reference sequence.
+//
+// The alignment of an unmapped read that is placed at the position of its mate is as long as the
+// read, which can extend past the end of the reference sequence.
+fn clamp_reference_sequence_context(
+    header: &sam::Header,
+    reference_sequence_context: ReferenceSequenceContext,
+) -> ReferenceSequenceContext {
+    let ReferenceSequenceContext::Some(context) = reference_sequence_context else {
+        return reference_sequence_context;
+    };
+
+    let reference_sequence_end = header
+        .reference_sequences()
+        .get_index(context.reference_sequence_id())
+        .and_then(|(_, reference_sequence)| {
+            Position::new(usize::from(reference_sequence.length()))
+        });
+
+    match reference_sequence_end {
+        Some(end) if context.alignment_start() <= end => ReferenceSequenceContext::some(
+            context.reference_sequence_id(),
+            context.alignment_start(),
+            context.alignment_end().min(end),
+        ),
+        _ => reference_sequence_context,
+    }
 }
 
 fn set_mates(records: &mut [Record]) {
@@ -289,14 +320,112 @@ fn calculate_reference_sequence_md5(
         .reference_sequences()
         .get_index(context.reference_sequence_id())
         .map(|(name, _)| name)
-        .expect("invalid reference sequence ID");
+        .ok_or_else(|| {
+            io::Error::new(io::ErrorKind::InvalidInput, "invalid reference sequence ID")
+        })?;
 
     let reference_sequence = reference_sequence_repository
         .get(reference_sequence_name)
-        .expect("missing reference sequence")?;
+        .transpose()?
+        .ok_or_else(|| {
+            io::Error::new(
+                io::ErrorKind::InvalidInput,
+                format!("missing reference sequence: {reference_sequence_name}"),
+            )
+        })?;
 
     let interval = context.alignment_start()..=context.alignment_end();
-    let sequence = &reference_sequence[interval];
+
+    let sequence = reference_sequence.get(interval).ok_or_else(|| {
+        io::Error::new(
+            io::ErrorKind::InvalidInput,
+            "alignment span is not within the reference sequence",
+        )
+    })?;
 
     Ok(Some(calculate_normalized_sequence_digest(sequence)))
+}
+
+#[cfg(test)]
+mod tests {
+    use std::num::NonZero;
+
+    use fasta::record::{Definition, Sequence};
+    use sam::header::record::value::{Map, map};
+
+    use super::*;
+
+    fn build_header() -> sam::Header {
+        sam::Header::builder()
+            .add_reference_sequence(
+                "sq0",
+                Map::<map::ReferenceSequence>::new(const { NonZero::new(8).unwrap() }),
+            )
+            .add_reference_sequence(
+                "sq1",
+                Map::<map::ReferenceSequence>::new(const { NonZero::new(13).unwrap() }),
+            )
+            .build()
+    }
+
+    #[test]
+    fn test_clamp_reference_sequence_context() -> Result<(), Box<dyn std::error::Error>> {
+        let header = build_header();
+
+        let context = ReferenceSequenceContext::None;
+        assert_eq!(clamp_reference_sequence_context(&header, context), context);
+
+        let context = ReferenceSequenceContext::Many;
+        assert_eq!(clamp_reference_sequence_context(&header, context), context);
+
+        let context =
+            ReferenceSequenceContext::some(0, Position::try_from(2)?, Position::try_from(8)?);
+        assert_eq!(clamp_reference_sequence_context(&header, context), context);
+
+        let context =
+            ReferenceSequenceContext::some(0, Position::try_from(5)?, Position::try_from(10)?);
+        assert_eq!(
+            clamp_reference_sequence_context(&header, context),
+            ReferenceSequenceContext::some(0, Position::try_from(5)?, Position::try_from(8)?)
+        );
+
+        Ok(())
+    }
+
+    #[test]
+    fn test_calculate_reference_sequence_md5() -> Result<(), Box<dyn std::error::Error>> {
+        let repository = fasta::Repository::new(vec![fasta::Record::new(
+            Definition::new("sq0", None),
+            Sequence::from(b"ACGTACGT".to_vec()),
+        )]);
+
+        let header = build_header();
+
+        let context = ReferenceSequenceContext::None;
+        assert!(calculate_reference_sequence_md5(&repository, &header, context)?.is_none());
+
+        let context =
+            ReferenceSequenceContext::some(0, Position::try_from(2)?, Position::try_from(4)?);
+        assert_eq!(
+            calculate_reference_sequence_md5(&repository, &header, context)?,
+            Some(calculate_normalized_sequence_digest(b"CGT"))
+        );
+
+        // The alignment span is not within the reference sequence.
+        let context =
+            ReferenceSequenceContext::some(0, Position::try_from(5)?, Position::try_from(10)?);
+        assert!(matches!(
+            calculate_reference_sequence_md5(&repository, &header, context),
+            Err(e) if e.kind() == io::ErrorKind::InvalidInput
+        ));
+
+        // The reference sequence is not in the reference sequence repository.
+        let context = ReferenceSequenceContext::some(1, Position::MIN, Position::MIN);
+        assert!(matches!(
+            calculate_reference_sequence_md5(&repository, &header, context),
+            Err(e) if e.kind() == io::ErrorKind::InvalidInput
+        ));
+
+        Ok(())
+    }
 }
